@@ -279,7 +279,7 @@ def run(ctx):
     st = Stats()
     seedpick = ['g5', 'g6', 'g1', 'g3'][ctx.seed % 4]
     if ctx.thorough:
-        sweep(ctx, exe, st, 3000, ['g2', 'g4', 'g7', 'g1', 'g3', 'g5', 'g6'], 2)
+        sweep(ctx, exe, st, 2000, ['g2', 'g4', 'g7', 'g1', 'g3', 'g5', 'g6'], 2)
     else:
         sweep(ctx, exe, st, 200, ['g7', seedpick], 1, per=50)
     ctx.extra['input_distribution'] = dict(sorted(st.dist.items()))
